@@ -15,6 +15,7 @@ Two kinds of theorems:
 import Teleport.Gen.StatusMut
 import Teleport.Gen.Fields
 import Teleport.Lemmas.StatusHeap
+import Teleport.Gen.Consts
 namespace Teleport
 namespace C15
 open StatusHeap
@@ -188,6 +189,33 @@ theorem C15_class_restriction_necessary :
     (Rule.closedCall.exec (run init aliasHistory)).2 ≠ Rule.closedCall.table ∧
     sentinels (run init aliasHistory) ≠ sentinels init := by
   refine ⟨(respectsB_iff _ _).1 (by decide), by decide, by decide, by decide⟩
+
+
+/-! ### tie A — sentinel values (fact group `Consts`, arguments evaluated) -/
+
+/-- the regenerated sentinel row as a model status. -/
+def constSentinel (r : String × Int × String × String) : String × Status :=
+  (r.1, ⟨r.2.1, ascii r.2.2.1, if r.2.2.2 == "!nil" then none else some (ascii r.2.2.2)⟩)
+
+/-- **C15 tie A, sentinel values (semantic form)**: the model's `sentinelTable` is, as a set, the set of
+    package-level `stat*` statuses of the root package with code, text and cause obtained by EVALUATING
+    their initialisers (`NewStatus(code, CodeText(code), "")` with `CodeText` executed, or
+    `<sentinel>.Copy(cause)`), `nSent` is their number, every text is `CodeText` of the code, and the
+    fixed addresses the failure rules use hold the sentinel they are named after. Unlike
+    `C15_sentinel_table` this does not depend on how the initialiser is spelled. -/
+theorem C15_consts_sentinels :
+    Gen.consts_missing = [] ∧
+    Gen.consts_sentinels.length = sentinelTable.length ∧ nSent = Gen.consts_sentinels.length ∧
+    (Gen.consts_sentinels.all fun r => sentinelTable.lookup r.1 == some (constSentinel r).2) = true ∧
+    (sentinelTable.map (·.1)).Nodup ∧
+    (Gen.consts_sentinels.all fun r => Gen.consts_code_text.lookup r.2.1 == some r.2.2.1) = true ∧
+    [addrOf "statInvalidOpError", addrOf "statDialFailed", addrOf "statConnClosed", addrOf "statWriteFailed",
+     addrOf "statBadMessage", addrOf "statNotFound", addrOf "statCodeMtypeNotAllowed",
+     addrOf "statInternalServerError", addrOf "statUnpreparedError"] =
+      [some aInvalidOp, some aDialFailed, some aConnClosed, some aWriteFailed, some aBadMessage, some aNotFound,
+       some aMtype, some aISE, some aUnprepared] := by
+  decide +kernel
+
 
 end C15
 end Teleport
